@@ -427,6 +427,18 @@ func TestC16(t *testing.T) {
 					}
 				}
 				h := rapid.SampledFrom(c16Hostile).Draw(rt, "h")
+				if rapid.IntRange(0, 7).Draw(rt, "preferuses") == 0 {
+					// a Docker action whose URI part does not parse and whose tag carries hostile characters
+					for _, c := range slots {
+						if !c.isKey && strings.HasSuffix(c.parent.Vals[c.idx].Path, ".steps.uses") {
+							s = c
+						}
+					}
+					if !s.isKey && strings.HasSuffix(s.parent.Vals[s.idx].Path, ".steps.uses") {
+						h = "docker://" + rapid.SampledFrom([]string{"a\x01b", "%zz", "[x", "a b\x7f", "ok.example/img"}).Draw(rt, "duri") + ":" +
+							rapid.SampledFrom([]string{"t\nx", "t\rx", "v1 [x]", "", "t\r\n", "\x1b[31m", "1.0"}).Draw(rt, "dtag")
+					}
+				}
 				if !s.isKey && strings.HasSuffix(s.parent.Vals[s.idx].Path, ".cron") && rapid.Bool().Draw(rt, "cronish") {
 					// every kind of cron error (descriptor, time zone, field count, field syntax) with every kind of white space / line break echoed from the value
 					h = rapid.SampledFrom([]string{"@foo", "@every 1h", "@daily", "TZ=a", "CRON_TZ=Asia", "TZ=", "0 0 * * *", "*/x", "0 0", ""}).Draw(rt, "hc") +
